@@ -32,6 +32,15 @@ def conditions(tier: str) -> list[core.Cond]:
         for second in ([1, 0], [1, 1]):
             conds.append(core.Cond(f"history {[first, second]} buffer=1 placement=2 batch=3", HARNESS, "check",
                                    {"history": [first, second], "buf": 1, "batch": 3, "late": 2}, tmo))
+    # the first run does not ingest (empty store), later runs do
+    for hist in ([[0, 1], [1, 1]], [[0, 1], [1, 0]], [[0, 0], [0, 1], [1, 1]]):
+        conds.append(core.Cond(f"history {hist} (store empty at first) buffer=1 placement=0", HARNESS, "check",
+                               {"history": hist, "buf": 1, "batch": 2, "late": 0}, tmo))
+    # no time buffer: the window pass removes nothing
+    for hist in ([[1, 0], [1, 0]], [[1, 1], [1, 1]]):
+        for bs in (2, 3):
+            conds.append(core.Cond(f"history {hist} buffer=0 placement=0 batch={bs}", HARNESS, "check",
+                                   {"history": hist, "buf": 0, "batch": bs, "late": 0}, tmo))
     # a run whose lazy output is never read (the otel2pv command without --save-events), followed by ordinary runs
     for first in ([1, 1, 0], [1, 0, 0]):
         for second in runs:
@@ -56,7 +65,8 @@ def run(tier: str) -> int:
     chk.encode("tel2puml/otel_to_pv/data_holders/sql_data_holder/sql_dataholder.py",
                "SQLDataHolder ingestion, cleaning, find_unique_graphs (temp table, job_hashes), stream_data")
     chk.encode("tel2puml/otel_to_pv/sequence_otel.py", "sequence_otel_job_id_streams")
-    chk.bounds = {"histories": "every history of 2 (thorough: 2 and 3) separate-process runs over one store; run 1 ingests; each later run chooses "
+    chk.bounds = {"histories": "every history of 2 (thorough: 2 and 3) separate-process runs over one store; run 1 ingests (plus a few histories "
+                               "whose first run does not); each later run chooses "
                                "{ingest, no-ingest} x {unique graphs on/off}; time_buffer 0 and 1 minute",
                   "data": "5 traces (two window anchors, three main traces, two of them of equal shape, one with an inconsistent workflow name); "
                           "one span sent twice inside a batch; per condition: which main trace lies in the trailing buffer zone / covers the whole window; "
